@@ -96,8 +96,11 @@ RULE = ('small: 0-6 objects (nested dicts/lists, 64-bit ints, floats incl. -0.0/
 TRUSTED = ['orjson: MODELLED on the float-free subset of JSON (Container/Json.v: json_print / json_parse), with its premises '
            '(loads(dumps o) = o, dumps o non-empty, no raw newline, no control byte, valid UTF-8) PROVED for the model and the '
            'model compared with the real orjson on every run (the text rxsci json.dump emits for generated values = json_print; '
-           'json_parse = orjson.loads on noisy and mutated texts, rejections included); outside the model: floats, ints '
-           'beyond orjson range, orjson nesting limits (254 / 1024) - for objects with floats the premises stay hypotheses',
+           'json_parse = orjson.loads on noisy and mutated texts, rejections included); a SECOND model (Container/JsonFloat.v over FloatText.v) adds finite binary64 floats: '
+           'orjson float layout (shortest round-trip digits, fixed notation for -5 < digits + exponent <= 16, else d[.ddd]e+-x) and a correctly '
+           'rounded number parser (overflow to infinity = rejection), same theorems, compared with orjson.dumps / loads on every run (kind jfloat); '
+           'outside both models: nan / inf (orjson writes null), ints beyond orjson range on dumps, orjson nesting limits (254 / 1024); minimality of '
+           'the digit string is tied to orjson by the comparison only',
            'NOT modelled: CPython incremental '
            'text codecs (premise: decode of any re-chunking of encode = same text; C17), zlib/zstandard (premise: '
            'decompress of any re-chunking of compress = same bytes; C16). They are hypotheses of the composition theorem, '
@@ -566,6 +569,9 @@ def generate(rng, tier):
     # own json.dump / json.load: values -> emitted text = json_print, parsed back; noisy and mutated texts -> loads
     for _ in range({'quick': 3, 'thorough': 40, 'search': 1}[tier]):
         cases.append({'kind': 'jmodel', 'seed': rng.randrange(10 ** 9), 'n': 120, 'm': 160})
+    # the same with finite binary64 floats (Container/JsonFloat.v): orjson's float layout and its correctly rounded number parser
+    for _ in range({'quick': 2, 'thorough': 20, 'search': 1}[tier]):
+        cases.append({'kind': 'jfloat', 'seed': rng.randrange(10 ** 9), 'n': 60, 'm': 90})
     return cases
 
 
@@ -685,9 +691,43 @@ def run_jmodel(case):
             'n_back': len(back), 'n_want': len(want), 'n_rejected': sum(1 for _, r in loads if r == 'None')}
 
 
+def run_jfloat(case):
+    import random
+    import rx
+    import rxsci.container.json as rjson
+    from harness import jsonfloatmirror as jf
+    rng = random.Random(case['seed'])
+    values = jf.dump_values(rng, case['n'])
+    texts, end = [], []
+    rx.from_(values).pipe(rjson.dump()).subscribe(on_next=texts.append, on_error=lambda e: end.append('error:' + type(e).__name__),
+                                                  on_completed=lambda: end.append('completed'))
+    ok_shape = len(texts) == len(values) and all(isinstance(t, str) and t.endswith('\n') for t in texts)
+    dumps = [(jf.term(v), jf.zlist(list(t[:-1].encode('utf-8')))) for v, t in zip(values, texts)] if ok_shape else []
+    back, lend = [], []
+    rx.from_([t[:-1] for t in texts] if ok_shape else []).pipe(rjson.load()).subscribe(
+        on_next=back.append, on_error=lambda e: lend.append('error:' + type(e).__name__), on_completed=lambda: lend.append('completed'))
+    want = [v for v in values if v is not None]
+    loads = jf.loads_cases(rng, case['m'])
+    same = len(back) == len(want) and all(jf.same_value(a, b) for a, b in zip(back, want))
+    def n_floats(v):
+        if isinstance(v, float):
+            return 1
+        if isinstance(v, list):
+            return sum(n_floats(x) for x in v)
+        if isinstance(v, dict):
+            return sum(n_floats(x) for x in v.values())
+        return 0
+    return {'dumps': dumps, 'loads': loads, 'dump_end': end, 'load_end': lend, 'ok_shape': ok_shape, 'roundtrip_ok': same,
+            'n_back': len(back), 'n_want': len(want), 'n_rejected': sum(1 for _, r in loads if r == 'None'),
+            'n_floats': sum(n_floats(v) for v in values),
+            'n_exponent_form': sum(1 for t in texts if 'e' in t and any(c.isdigit() for c in t))}
+
+
 def run_impl(case):
     if case['kind'] == 'jmodel':
         return run_jmodel(case)
+    if case['kind'] == 'jfloat':
+        return run_jfloat(case)
     import rx
     import rxsci.container.json as rjson
     os.makedirs(WORKDIR, exist_ok=True)
@@ -822,7 +862,7 @@ def run_impl(case):
 def oracle(case, obs):
     if case['kind'] == 'hand':
         return None
-    if case['kind'] == 'jmodel':
+    if case['kind'] in ('jmodel', 'jfloat'):
         if 'raised' in obs:
             return {'sig': 'json:raised', 'what': 'raised %s: %s' % (obs['raised'], obs.get('msg'))}
         if not obs['ok_shape'] or obs['dump_end'] != ['completed']:
@@ -873,7 +913,7 @@ def scale_where(case, obs):
 def nontrivial(case, obs):
     if 'raised' in obs or case['kind'] == 'hand':
         return False
-    if case['kind'] == 'jmodel':
+    if case['kind'] in ('jmodel', 'jfloat'):
         return True
     if case['kind'] == 'big':
         return len(obs['read_sizes']) >= 2 or obs['max_chunk_chars'] > MIB
@@ -893,12 +933,18 @@ def silent_run(lens_out):
 
 
 def describe(cases, obs):
-    keep = [(c, o) for c, o in zip(cases, obs) if c['kind'] != 'jmodel']
+    keep = [(c, o) for c, o in zip(cases, obs) if c['kind'] not in ('jmodel', 'jfloat')]
     jm = [(c, o) for c, o in zip(cases, obs) if c['kind'] == 'jmodel' and 'raised' not in o]
+    jfl = [(c, o) for c, o in zip(cases, obs) if c['kind'] == 'jfloat' and 'raised' not in o]
     d = describe_files([c for c, _ in keep], [o for _, o in keep])
     d['orjson_model_cases'] = {'cases': len(jm), 'values_dumped': sum(len(o['dumps']) for _, o in jm),
                                'texts_loaded': sum(len(o['loads']) for _, o in jm),
                                'texts_rejected_by_orjson': sum(o['n_rejected'] for _, o in jm)}
+    d['orjson_float_model_cases'] = {'cases': len(jfl), 'values_dumped': sum(len(o['dumps']) for _, o in jfl),
+                                     'floats_in_values': sum(o['n_floats'] for _, o in jfl),
+                                     'texts_in_exponent_form': sum(o['n_exponent_form'] for _, o in jfl),
+                                     'texts_loaded': sum(len(o['loads']) for _, o in jfl),
+                                     'texts_rejected_by_orjson': sum(o['n_rejected'] for _, o in jfl)}
     return d
 
 
@@ -1008,7 +1054,7 @@ def describe_files(cases, obs):
 # ---------------------------------------------------------------------------------------------
 def coq_preamble():
     return ('From Coq Require Import List ZArith NArith Bool.\nImport ListNotations.\n'
-            'From RxVerif Require Import Base.Corr Framing.Line Container.JsonLines Container.Json Container.C19Corr.\n')
+            'From RxVerif Require Import Base.Corr Framing.Line Container.JsonLines Container.Json Container.FloatText Container.JsonFloat Container.C19Corr.\n')
 
 
 CTYPE = 'c19case'
@@ -1020,6 +1066,8 @@ def coq_term(case, obs):
         return 'CRaised'
     if case['kind'] == 'jmodel':
         return 'CJsonModel [%s] [%s]' % ('; '.join('(%s, %s)' % c for c in obs['dumps']), '; '.join('(%s, %s)' % c for c in obs['loads']))
+    if case['kind'] == 'jfloat':
+        return 'CJsonFloat [%s] [%s]' % ('; '.join('(%s, %s)' % c for c in obs['dumps']), '; '.join('(%s, %s)' % c for c in obs['loads']))
     completed = obs['load_end'] == ['completed']
     if case['kind'] == 'doc':
         return 'CDoc %s %s %s %s %s %s %s %s %s %s' % (
@@ -1042,6 +1090,8 @@ def coq_term(case, obs):
 def coq_model_expr(case):
     if case['kind'] == 'jmodel':
         return 'json_print (JObj [([97]%Z, JArr [JInt 1%Z; JNull])])'
+    if case['kind'] == 'jfloat':
+        return 'jsonf_print (FArr [ffloat (false, 6755399441055744, -42)%Z; ffloat (true, 0, 0)%Z; ffloat (false, 1, -1074)%Z])'
     if case['kind'] == 'doc':
         return '(doc_read_sizes 0, doc_read_sizes 70000, z_json_load [([1]%Z, Some 1%N)] 0 false [[1]; []]%Z)'
     if case['kind'] == 'big':
@@ -1051,6 +1101,8 @@ def coq_model_expr(case):
 
 
 def neighbours(case, rng):
+    if case['kind'] in ('jmodel', 'jfloat'):
+        return [{'kind': case['kind'], 'seed': rng.randrange(10 ** 9), 'n': 40, 'm': 40} for _ in range(6)]
     if case['kind'] == 'doc':
         return [gen_doc(rng, 'search') for _ in range(10)] + \
                [gen_doc(rng, 'search', comp=case['comp'], size=rng.randrange(2 * READ, 8 * READ), flavour='blob')
@@ -1105,7 +1157,8 @@ CLAIM = {
             'orjson on the float-free subset is a Coq model (Json.v) with json_parse (json_print v) = Some v, also followed by '
             'whitespace / the newline, no control byte and no raw newline in json_print v, valid UTF-8; the three composition '
             'theorems are re-stated with these premises discharged (C19_model_*: only the text codec and the compression stage '
-            'remain premises), and the model is compared with orjson (through rxsci json.dump / json.load) on every run.',
+            'remain premises), and the model is compared with orjson (through rxsci json.dump / json.load) on every run. '
+            'The same for values holding finite floats (JsonFloat.v: C19_json_float_model_* and C19_modelf_*; -0.0 comes back as -0.0).',
     'note': 'Trusted: Coq kernel+VM; hand-written model of json.py (tied by correspondence only); orjson, CPython codecs, '
             'zlib, zstandard, gzip module (not modelled; hypotheses of the theorem, tested not proved); the taps '
             '(monkey-patching in the harness process); items delivered before a stage error are not modelled; '
